@@ -94,6 +94,19 @@ def check_config(spec, m, N, dev, res, ctx, only_mask=None):
         res.nt((name, N, dev, mask.tobytes()))
         data = ydev if dev else ylev
         sm, up = f.out["smooth_med"], f.out["update_med"]
+        # the smoother asked for alone (no prediction and no updating output) returns the same smoothed means
+        try:
+            fs = c03.Filtered(spec, m, to_impl(ydev if dev else ylev), mask, N, dev, False, None, return_predict=False, return_update=False)
+            res.ev()
+            res.count("smoother_alone_runs")
+            for n_ in sm.keys():
+                a_ = series_of(sm, n_, N)
+                b_ = series_of(fs.out["smooth_med"], n_, N)
+                if not np.allclose(a_, b_, rtol=1e-9, atol=1e-10, equal_nan=True):
+                    bad("smoother_alone", "smooth_med %s: requested alone %s, with all outputs %s" % (n_, np.round(b_, 9).tolist(), np.round(a_, 9).tolist()), what="smooth_med")
+                    break
+        except Exception as e:
+            bad("exception", "smoother alone: %s: %s" % (type(e).__name__, str(e)[:300]), error=type(e).__name__)
         # (a), (e): data reproduced in observed cells
         for i in range(ny):
             for box, lab in ((sm, "smooth_med"), (up, "update_med")):
@@ -295,7 +308,8 @@ def run(ctx, total, info):
     engine.run_shards(__name__, "shard", shards, ctx, total)
     info["exhaustive"] = True
     info["floors"] = {"cases": (len(total.nontrivial), 800), "shocks_from_data_runs": (total.counters.get("shocks_from_data_runs", 0), 60),
-                      "deviation_vs_level_unit_root": (total.counters.get("deviation_vs_level_unit_root", 0), 300)}
+                      "deviation_vs_level_unit_root": (total.counters.get("deviation_vs_level_unit_root", 0), 300),
+                      "smoother_alone_runs": (total.counters.get("smoother_alone_runs", 0), 3000)}
 
 
 def replay(case):
